@@ -21,6 +21,8 @@ func (e *Engine) registerIntrinsics() {
 		"(*sync.RWMutex).RUnlock":      intrRWRUnlock,
 		"(*sync.WaitGroup).Add":        intrWGAdd,
 		"(*sync.Once).Do":              intrOnceDo,
+		"(*sync.Pool).Get":             intrSyncPoolGet,
+		"(*sync.Pool).Put":             intrSyncPoolPut,
 		"(*sync.Map).Load":             intrSyncMapLoad,
 		"(*sync.Map).Store":            intrSyncMapStore,
 		"(*sync.Map).LoadOrStore":      intrSyncMapLoadOrStore,
